@@ -179,6 +179,24 @@ def gen_media(rng, depth=0):
     return Stmt('media', head=head, inner=inner, gaps=gaps)
 
 
+def gen_deep_media(rng, levels):
+    """an @media rule with `levels` more @media rules nested inside it (one chain), styles around them"""
+    inner = [gen_style(rng) for _ in range(rng.choice([0, 1, 1, 2]))]
+    inner.append(gen_deep_media(rng, levels - 1) if levels > 0 else gen_style(rng))
+    if rng.random() < 0.5:
+        inner.append(rng.choice([gen_style(rng), Stmt('comment', text='/* t */'),
+                                 Stmt('unknown', text=rng.choice(UNKNOWN_AT))]))
+    head = at_kw(rng, '@media') + ws(rng, True) + rng.choice(MEDIA) + rng.choice(['', ' '])
+    gaps = {'inner': [rng.choice(['', ' ', '\n  ']) for _ in range(len(inner) + 1)]}
+    return Stmt('media', head=head, inner=inner, gaps=gaps)
+
+
+def gen_deep_sheet(rng):
+    """truncation at depth: a chain of 3-6 nested @media rules between two style rules"""
+    stmts = [gen_style(rng), gen_deep_media(rng, rng.choice([2, 3, 4, 5])), gen_style(rng)]
+    return Sheet(stmts, [rng.choice(['', ' ', '\n']) for _ in range(4)])
+
+
 def gen_sheet(rng):
     stmts = []
     if rng.random() < 0.25:
